@@ -51,6 +51,7 @@ def cases(ctx):
         [492, 493], [985], [992], [992, 0], [0, 992], [0, 0, 0], [0], [985, 0], [984, 0, 0], [978, 7], [978, 6], [978, 8],
         [992] * 5, [992, 992, 992, 992, 985], [492, 493] * 5, [300] * 16, [0] * 140, [1] * 120, [992, 0, 992, 0, 992],
         [500, 492], [500, 485], [500, 486], [100] * 9 + [29], [100] * 9 + [30], [100] * 9 + [31],
+        [0] * 124, [0] * 125, [0] * 142, [0] * 143, [1] * 124, [0, 1] * 66, [0] * 300,
     ]
     for k, lens in enumerate(special):
         for enc in ('latin_1', 'cp500'):
@@ -58,7 +59,7 @@ def cases(ctx):
                 i += 1
                 if ctx.mine(i):
                     yield {'kind': 'special', 'cfg': 'packaged', 'enc': enc, 'lens': lens, 'style': style,
-                           'tags': [1 + 3 * j + k for j in range(len(lens))]}
+                           'tags': [(0 if k % 2 else 1) + 3 * j + (k if j else 0) for j in range(len(lens))]}
     # seeded sets, packaged and generated configurations with other carrier bits
     rng = ctx.rng('sets')
     cids = msgwork.config_ids(ctx, 12 if ctx.tier == 'quick' else 60, 0)
@@ -104,6 +105,8 @@ def judge(ctx, case):
     for w in want:
         if len(w) >= 990:
             ctx.seen('carrier fill levels >= 990', len(w))
+    if 'PDS0000' in items:
+        ctx.count('sets containing tag 0000')
     if any(len(v) == 0 for v in items.values()):
         ctx.count('sets with a zero-length value')
     kind, data = ctx.call(iso.dumps, dict(msg), encoding=enc, iso_config=cfg, budget=600000)
@@ -166,6 +169,8 @@ def require(m):
         reasons.append('no carrier was filled to exactly 999')
     if not m['counters'].get('sets supplied in non-ascending insertion order'):
         reasons.append('no PDS set was supplied out of order')
+    if not m['counters'].get('sets containing tag 0000'):
+        reasons.append('tag 0000 never used')
     if not m['counters'].get('sets with a zero-length value'):
         reasons.append('no zero-length value driven')
     return reasons
